@@ -17,6 +17,66 @@ import (
 type NamedStr string
 type NamedBytes []byte
 
+// PbList is a hand-written proto3 message with repeated fields (the messages shipped in the repository have none):
+// {1: repeated string items, 2: int64 total, 3: string note, 4: repeated int64 nums (packed)}.
+type PbList struct {
+	Items []string `protobuf:"bytes,1,rep,name=items,proto3" json:"items,omitempty"`
+	Total int64    `protobuf:"varint,2,opt,name=total,proto3" json:"total,omitempty"`
+	Note  string   `protobuf:"bytes,3,opt,name=note,proto3" json:"note,omitempty"`
+	Nums  []int64  `protobuf:"varint,4,rep,packed,name=nums,proto3" json:"nums,omitempty"`
+}
+
+func (m *PbList) Reset()         { *m = PbList{} }
+func (m *PbList) String() string { return fmt.Sprintf("%+v", *m) }
+func (*PbList) ProtoMessage()    {}
+
+// fillPrev gives v the content of a destination that was used for a "bigger" value before: every field
+// non-zero, every sequence longer than any value the shape grammar generates.
+func (d *dataRun) fillPrev(v reflect.Value) {
+	switch v.Kind() {
+	case reflect.Bool:
+		v.SetBool(true)
+	case reflect.Int, reflect.Int8, reflect.Int16, reflect.Int32, reflect.Int64:
+		v.SetInt(77)
+	case reflect.Uint, reflect.Uint8, reflect.Uint16, reflect.Uint32, reflect.Uint64:
+		v.SetUint(77)
+	case reflect.Float32, reflect.Float64:
+		v.SetFloat(9.75)
+	case reflect.String:
+		v.SetString("prev-" + d.rstr(24, alnum))
+	case reflect.Slice:
+		n := 5
+		if v.Type().Elem().Kind() == reflect.Uint8 {
+			n = 40
+		}
+		sl := reflect.MakeSlice(v.Type(), n, n+8)
+		for i := 0; i < n; i++ {
+			d.fillPrev(sl.Index(i))
+		}
+		v.Set(sl)
+	case reflect.Array:
+		for i := 0; i < v.Len(); i++ {
+			d.fillPrev(v.Index(i))
+		}
+	case reflect.Struct:
+		for i := 0; i < v.NumField(); i++ {
+			if n := v.Type().Field(i).Name; n == "XMLName" || strings.HasPrefix(n, "XXX_") || !v.Field(i).CanSet() {
+				continue
+			}
+			d.fillPrev(v.Field(i))
+		}
+	case reflect.Map:
+		m := reflect.MakeMap(v.Type())
+		for i := 0; i < 5; i++ {
+			k, e := reflect.New(v.Type().Key()).Elem(), reflect.New(v.Type().Elem()).Elem()
+			d.fillPrev(k)
+			d.fillPrev(e)
+			m.SetMapIndex(k, e)
+		}
+		v.Set(m)
+	}
+}
+
 var codecIDs = map[string]byte{"json": 'j', "xml": 'x', "form": 'f', "plain": 's', "protobuf": 'p', "thrift": 't'}
 
 type shapeParser struct {
@@ -319,6 +379,33 @@ func (d *dataRun) codecCase(c DataCase, out map[string]interface{}) {
 	case shape == "thriftempty":
 		typ = reflect.TypeOf(codec.ThriftEmpty{})
 		gen = func() reflect.Value { return reflect.ValueOf(codec.ThriftEmpty{}) }
+	case strings.HasPrefix(shape, "pblist:"):
+		typ = reflect.TypeOf(PbList{})
+		gen = func() reflect.Value {
+			l := PbList{}
+			switch shape {
+			case "pblist:one":
+				l = PbList{Items: []string{d.rstr(1+d.rnd.Intn(8), alnum)}, Nums: []int64{int64(d.rnd.Intn(1000)) + 1}}
+			case "pblist:some":
+				l = PbList{Total: 3, Note: "note-" + d.rstr(6, alnum) + "é世"}
+				for i := 0; i < 3; i++ {
+					l.Items = append(l.Items, fmt.Sprintf("e%d-%s", i, d.rstr(2+d.rnd.Intn(6), alnum)))
+					l.Nums = append(l.Nums, int64(10*(i+1)+d.rnd.Intn(9)))
+				}
+			}
+			return reflect.ValueOf(l)
+		}
+	case shape == "map:string":
+		typ = reflect.TypeOf(map[string]string{})
+		gen = func() reflect.Value {
+			return reflect.ValueOf(map[string]string{"alpha": d.rstr(1+d.rnd.Intn(8), alnum), "b c": "x&y=z", "key-" + d.rstr(4, alnum): "héllo-世界", "e": ""})
+		}
+	case shape == "map:strings":
+		typ = reflect.TypeOf(map[string][]string{})
+		gen = func() reflect.Value {
+			return reflect.ValueOf(map[string][]string{"alpha": {"e0-" + d.rstr(2, alnum), "e1-" + d.rstr(2, alnum), "e2"}, "b c": {"x&y=z"},
+				"key-" + d.rstr(4, alnum): {d.rstr(1+d.rnd.Intn(8), alnum)}, "e": {""}})
+		}
 	default:
 		p := &shapeParser{s: shape, d: d}
 		typ, gen = p.parse()
@@ -391,6 +478,105 @@ func (d *dataRun) codecCase(c DataCase, out map[string]interface{}) {
 			}
 		}
 		out["equal"] = eq
+		return
+	}
+	if c.S("kind") == "alias" {
+		// the decoded value must not point into the input: the codec is handed a view of a pooled receive buffer
+		// that is reused for the next message.  Decode from a private copy of the encoding (spare capacity like
+		// a pooled buffer), overwrite every byte of that copy, compare; overwrite it with the bytes of another
+		// valid encoding, compare again.
+		b, err := cd.Marshal(src.Interface())
+		if err != nil {
+			out["err"] = "marshal: " + err.Error()
+			return
+		}
+		arena := bytes.Repeat([]byte{0xAA}, len(b)+32)
+		buf := arena[: len(b) : len(b)+32]
+		copy(buf, b) // taken before anything else is encoded: encodings disturbing each other are the interleave class
+		other := reflect.New(typ)
+		other.Elem().Set(gen())
+		b2, err := cd.Marshal(other.Interface())
+		if err != nil {
+			out["err"] = "marshal other: " + err.Error()
+			return
+		}
+		b2 = append([]byte(nil), b2...)
+		dst := reflect.New(typ)
+		if err := cd.Unmarshal(buf, dst.Interface()); err != nil {
+			out["err"] = "unmarshal: " + err.Error()
+			out["enc"] = clip(b)
+			return
+		}
+		phase := ""
+		if !normEqual(src.Elem(), dst.Elem()) {
+			phase = "fresh"
+		}
+		if phase == "" {
+			for i := range arena {
+				arena[i] = 0xAA
+			}
+			if !normEqual(src.Elem(), dst.Elem()) {
+				phase = "overwritten"
+			}
+		}
+		if phase == "" && len(b2) > 0 {
+			for i := range arena {
+				arena[i] = b2[i%len(b2)]
+			}
+			if !normEqual(src.Elem(), dst.Elem()) {
+				phase = "nextmessage"
+			}
+		}
+		out["equal"] = phase == ""
+		if phase != "" {
+			out["phase"] = phase
+			out["enc"] = clip(b)
+			out["got"] = clip([]byte(fmt.Sprintf("%+v", dst.Elem().Interface())))
+			out["want"] = clip([]byte(fmt.Sprintf("%+v", src.Elem().Interface())))
+		}
+		return
+	}
+	if c.S("kind") == "reuse" {
+		// a caller that reuses one reply object: the destination received another value before (decoded, as a
+		// caller would have got it); for a codec that resets its destination the second decode yields the value
+		prev := reflect.New(typ)
+		if c.S("prev") == "full" {
+			d.fillPrev(prev.Elem())
+		} else {
+			prev.Elem().Set(gen())
+		}
+		pb, err := cd.Marshal(prev.Interface())
+		if err != nil {
+			out["err"] = "marshal prev: " + err.Error()
+			return
+		}
+		dst := reflect.New(typ)
+		if err := cd.Unmarshal(append([]byte(nil), pb...), dst.Interface()); err != nil {
+			out["err"] = "unmarshal prev: " + err.Error()
+			return
+		}
+		if !normEqual(prev.Elem(), dst.Elem()) {
+			out["err"] = "prev value did not round-trip"
+			return
+		}
+		b, err := cd.Marshal(src.Interface())
+		if err != nil {
+			out["err"] = "marshal: " + err.Error()
+			return
+		}
+		if err := cd.Unmarshal(append([]byte(nil), b...), dst.Interface()); err != nil {
+			out["err"] = "unmarshal: " + err.Error()
+			out["enc"] = clip(b)
+			return
+		}
+		eq := normEqual(src.Elem(), dst.Elem())
+		out["equal"] = eq
+		if !eq {
+			out["enc"] = clip(b)
+			out["had"] = clip([]byte(fmt.Sprintf("%+v", prev.Elem().Interface())))
+			out["got"] = clip([]byte(fmt.Sprintf("%+v", dst.Elem().Interface())))
+			out["want"] = clip([]byte(fmt.Sprintf("%+v", src.Elem().Interface())))
+		}
 		return
 	}
 	// garbage: decode hostile bytes into a destination surrounded by sentinels
